@@ -90,6 +90,12 @@ CHECKS = {
         "Blank-dropping uses a conservative may_glue predicate built on the harness's own reserved-word list; a wrong entry there would surface as a reported mismatch, never as silence.",
         "6 C16",
     ),
+    "C17": (
+        "proptest-generated INPUT statements (prompt forms, leading comma, 1-5 typed targets, array targets subscripted by earlier fields) x reply scripts (well-formed, wrong field count, unconvertible fields, quoted commas, blanks, every numeric spelling, over-long) against the reference interpreter's INPUT",
+        "Exploration with a reference model of the reply grammar: prompt text and caps flag, field splitting, trimming, unquoting, conversion per target type, REDO FROM START with the same prompt, acceptance, column reset; whole dialogues (prompts, replies, error lines, values and types of the targets afterwards) are compared.",
+        "Trusted base: model.rs accept_reply + sem.rs parse_number (A17). Undocumented spellings (INF/NAN, signed radix digits) are not generated; side effects of rejected replies are not asserted.",
+        "6 C17",
+    ),
     "C20": (
         "metamorphic testing: proptest-generated programs under layout transformations (renumbering, inserted remark/unreachable lines, empty statements, line splitting) must behave identically up to reported line numbers; direct lines independent of the program in memory; direct line vs one-line program",
         "Exploration with a metamorphic oracle: each case runs the original and the transformed program (and a direct line with three different programs in memory) and compares transcripts and final variables exactly after mapping line numbers back; the transformations move the code address of jump targets, WHILE/WEND pairs, DATA and FOR/GOSUB return points without changing meaning.",
